@@ -180,6 +180,17 @@ func c18Ctx(t *rapid.T) Ctx {
 		List(ZT(Hash([]string{"k"}, []*E{Int(1)}), "map[iface]"), Int(2)), Int(3)}))
 	c.Set("st", ZT(Hash([]string{"Name", "Tags"}, []*E{Str("nm"), List(Str("t2"), Str("t1"))}), "struct"))
 	c.Set("pst", ZT(Hash([]string{"Name", "Tags"}, []*E{Str("pn"), List(Str("q2"), Str("q1"))}), "ptrstruct"))
+	// pointers to structs that embed another struct through a nil pointer (reading a promoted field
+	// must not fill the pointer in)
+	c.Set("pe", ZT(Hash(nil, nil), "ptrembed"))
+	c.Set("pes", ZT(Hash(nil, nil), "ptrembedlist"))
+	c.Set("pe_set", ZT(Hash([]string{"City"}, []*E{Str("Oslo")}), "ptrembed"))
+	if rapid.IntRange(0, 3).Draw(t, "bigctx") == 0 {
+		// a context with many entries (thresholds in how the engine takes the caller's map over)
+		for i := 0; i < rapid.SampledFrom([]int{100, 127, 128, 129, 200, 600}).Draw(t, "nfill"); i++ {
+			c.Set(fmt.Sprintf("fill%03d", i), Int(int64(i)))
+		}
+	}
 	return c
 }
 
@@ -224,7 +235,7 @@ func genC18(t *rapid.T) (C18Case, []string) {
 	np := rapid.IntRange(1, 4).Draw(t, "nparts")
 	for i := 0; i < np; i++ {
 		coll := rapid.SampledFrom(c18Colls).Draw(t, "coll")
-		switch rapid.IntRange(0, 11).Draw(t, "form") {
+		switch rapid.IntRange(0, 12).Draw(t, "form") {
 		case 0, 1, 2:
 			parts = append(parts, "{{ "+c18Chain(t, coll)+"|"+rapid.SampledFrom(c18Ends).Draw(t, "end")+" }}")
 			cl = append(cl, "filter-chain")
@@ -252,6 +263,9 @@ func genC18(t *rapid.T) (C18Case, []string) {
 			mp := rapid.SampledFrom([]string{"m", "nest", "m_alias"}).Draw(t, "importalias")
 			parts = append(parts, "{{ "+mp+"|keys|join(',') }}{% import 'lib' as "+mp+" %}{{ "+mp+".tag(1) }}")
 			cl = append(cl, "import-alias-collides-with-context-map")
+		case 12:
+			parts = append(parts, "{{ pe.City }}{{ pe.City is defined ? 'd' : 'u' }}{{ pe.Zip|default('z') }}{{ pe.Name }}{% for q in pes %}{{ q.Zip }}{{ q.City|default('-') }}{% endfor %}{{ pe_set.City }}{% set fill003 = 9 %}{% set brandnew = 1 %}{% for fill005 in [1, 2] %}{% endfor %}{{ fill003 }}")
+			cl = append(cl, "nil-embedded-pointer")
 		case 11:
 			parts = append(parts, "{{ yaml|json_encode }}{{ json_encode(yaml.items) }}{{ yaml.cfg.host }}{{ yaml|keys|join }}{{ yaml.items|length }}{% for k, v in yaml %}{{ k }}{% endfor %}")
 			cl = append(cl, "yaml-shaped-data")
